@@ -609,3 +609,111 @@ def install_pages(lib):
         lib.loop_spec("Traph.%s::for#1" % fn, LoopSpec(pg_inner, havoc=pg_havoc, world=("__listed",)))
     accs = [_item_acc("is_page", IS_PAGE), _item_acc("is_crawled", IS_CRAWLED)]
     return [LruNodeCallee(), RealmCalleeLru(), ShouldYield(), PagesOfWebentity("get_webentity_pages_iter", False), PagesOfWebentity("get_webentity_crawled_pages_iter", True)] + accs
+
+
+# ============================================================================ Traph.links_iter (C03: the enumerations)
+N_PAGES = z3.Int("n_pages")
+P_LRU = z3.Function("PAGE_LRU", INT, BYTES)
+P_HEAD = z3.Function("PAGE_LINKS_HEAD", INT, INT)  # 0: no link in the asked direction
+P_NL = z3.Function("PAGE_N_DISTINCT_LINKED", INT, INT)
+P_LINKED = z3.Function("PAGE_LINKED_BLOCK", INT, INT, INT)
+BLK_LRU = z3.Function("LRU_OF_BLOCK", INT, BYTES)
+OUT_DIR = z3.Bool("out")
+
+
+class PagesCallee(Contract):
+    qual = "LRUTrie.pages_iter"
+
+    def seq(self, ex, p, recv, args, kw, ln):
+        q = p.fork()
+        jv = fresh("page_index", INT)
+        q.w["__cur_j"] = jv
+        node = q.new_obj("LRUTrieNode", {"__abstract": True, "__page": True})
+        q.mut += 1
+        return q, SeqView(N_PAGES, lambda j: (node, P_LRU(j)), facts=lambda j: [jv == j])
+
+
+class PageLinksHead(Contract):
+    qual = "LRUTrieNode.links"
+
+    def apply(self, ex, p, recv, args, kw, ln):
+        if not p.obj(recv).f.get("__page"):
+            raise Unsupported("links() of a node that is not a page item")
+        o = kw.get("out", args[0] if args else True)
+        ex.oblige(p, "list-head-asked-in-the-requested-direction", to_z3(ex.truth(o, p)) == OUT_DIR, ln, "post")
+        return [(p, P_HEAD(p.w["__cur_j"]))]
+
+
+class DedupedOfPage(Contract):
+    qual = "LinkStore.deduped_link_nodes_iter"
+
+    def seq(self, ex, p, recv, args, kw, ln):
+        q = p.fork()
+        j = q.w["__cur_j"]
+        ex.oblige(q, "walks-the-list-of-the-page-in-hand", z3.And(P_HEAD(j) != 0, to_z3(args[0]) == P_HEAD(j)), ln, "post")
+        lv = fresh("link_index", INT)
+        q.w["__cur_l"] = lv
+        q.w["__yields0"] = q.w["__yields"]
+        q.mut += 1
+        return q, SeqView(P_NL(j), lambda l: P_LINKED(j, l), facts=lambda l: [lv == l])
+
+
+class WindupOfBlock(Contract):
+    qual = "LRUTrie.windup_lru"
+
+    def apply(self, ex, p, recv, args, kw, ln):
+        return [(p, BLK_LRU(to_z3(args[0])))]
+
+
+def li_pages_inv(ex, p):
+    return [("yields-counted", p.w["__yields"] >= 0)]
+
+
+def li_links_inv(ex, p):
+    l = _idx(p, -1)
+    return [("one-pair-per-distinct-linked-block-so-far", z3.And(l >= 0, p.w["__yields"] - p.w["__yields0"] == l))]
+
+
+class LinksIter(Contract):
+    """Traph.links_iter(out) over ANY page / link sequences: for every page item that has a
+    list in the asked direction, one pair (the page's LRU, the LRU of the linked block) per
+    distinct linked block, in order - nothing else is yielded, pages without such a list
+    yield nothing"""
+
+    qual = "Traph.links_iter"
+
+    def setups(self, ex):
+        p = Path()
+        j = z3.Int("j")
+        p.assume(N_PAGES >= 0)
+        p.assume(z3.ForAll([j], P_NL(j) >= 0))
+        p.w["__yields"] = z3.IntVal(0)
+        p.w["__yields0"] = z3.IntVal(0)
+        p.w["__cur_j"] = z3.IntVal(-1)
+        p.w["__cur_l"] = z3.IntVal(-1)
+        trie = p.new_obj("LRUTrie", {})
+        ls = p.new_obj("LinkStore", {})
+        t = p.new_obj("Traph", {"lru_trie": trie, "link_store": ls})
+        yield p, t, [], {"out": OUT_DIR}, "any"
+
+    def on_yield(self, ex, p, v, ln, tag):
+        j, l = p.w["__cur_j"], p.w["__cur_l"]
+        ok = isinstance(v, tuple) and len(v) == 2
+        ex.oblige(p, "yield:is-a-pair", z3.BoolVal(ok), ln, "post")
+        if ok:
+            ex.oblige(p, "yield:(lru-of-the-page-in-hand,lru-of-the-linked-block-in-hand)", z3.And(to_z3(v[0]) == P_LRU(j), to_z3(v[1]) == BLK_LRU(P_LINKED(j, l))), ln, "post")
+            ex.oblige(p, "yield:only-inside-the-walk-of-a-page-that-has-such-links", z3.And(P_HEAD(j) != 0, l >= 0, l < P_NL(j), p.w["__yields"] - p.w["__yields0"] == l), ln, "post")
+        p.w["__yields"] = z3.simplify(p.w["__yields"] + 1)
+        p.mut += 1
+        return [(p, "normal", None)]
+
+    def check(self, ex, p0, res, tag):
+        for p1, kind, val in res:
+            if kind == "raise":
+                ex.oblige(p1, "raises-nothing(%s)" % val[0], False, val[1])
+
+
+def install_links_iter(lib):
+    lib.loop_spec("Traph.links_iter::for#0", LoopSpec(li_pages_inv, world=("__yields", "__yields0")))
+    lib.loop_spec("Traph.links_iter::for#1", LoopSpec(li_links_inv, world=("__yields",)))
+    return [PagesCallee(), PageLinksHead(), DedupedOfPage(), WindupOfBlock(), LinksIter()]
